@@ -374,6 +374,17 @@ pub fn model_pool(tier: Tier) -> Vec<(String, Vec<u8>)> {
         w[n] = -5;
         out.push((name.to_string(), ModelSpec { dict_model: vec![WordWeightRecord { word, weights: w, comment: "".into() }], char_window_size: 1, type_window_size: 1, ..Default::default() }.to_bytes()));
     }
+    // one long vector per file (dictionary words of 255..1024 characters, window 255, 256/512/600 tag candidates)
+    for (d, spec, _) in crate::c01::long_vector_family(Tier::Quick).into_iter().step_by(tier.pick(3, 1)) {
+        out.push((d, spec.to_bytes()));
+    }
+    // many entries of one kind (1024/1025/4097 dictionary records, character n-grams, type n-grams; 5000 tag models)
+    for (d, spec) in crate::c01::many_entries_family(Tier::Quick) {
+        out.push((d, spec.to_bytes()));
+    }
+    for (d, spec) in crate::c06::scale_tag_family(5000).into_iter().take(2) {
+        out.push((d, spec.to_bytes()));
+    }
     match std::fs::read("/repo/resources/model.bin") {
         Ok(b) => out.push(("resources/model.bin".into(), b)),
         Err(e) => machinery_error(&format!("/repo/resources/model.bin: {e}")),
@@ -399,7 +410,7 @@ pub fn ops_for(len: usize, tier: Tier) -> Vec<Value> {
     for t in 0..4 {
         ops.push(json!({"op": "tail", "k": t}));
     }
-    if len > 20_000 {
+    if len > 9_000 {
         // large files: round trips and tails only, plus a sparse set of truncation points
         for k in (0..len).step_by(len / 40 + 1) {
             ops.push(json!({"op": "prefix-slice", "k": k}));
